@@ -121,9 +121,24 @@ func genC19History(t *rapid.T) c19History {
 		n = rapid.IntRange(10, 24).Draw(t, "ndense")
 	}
 	for i := 0; i < n; i++ {
-		h.Adds = append(h.Adds, c19Add{AtMs: rapid.IntRange(0, 7000).Draw(t, "at"), Value: int64(1000*(i+1) + rapid.IntRange(1, 999).Draw(t, "v"))})
+		h.Adds = append(h.Adds, c19Add{AtMs: rapid.IntRange(0, 7000).Draw(t, "at")})
 	}
 	sort.Slice(h.Adds, func(i, j int) bool { return h.Adds[i].AtMs < h.Adds[j].AtMs })
+	// distinct values (they identify the samples) in no particular order with
+	// respect to time; some histories are negative throughout or mixed
+	idx := make([]int, n)
+	for i := range idx {
+		idx[i] = i
+	}
+	order := rapid.Permutation(idx).Draw(t, "value-order")
+	signs := rapid.SampledFrom([]string{"pos", "pos", "pos", "neg", "mixed"}).Draw(t, "signs")
+	for i := range h.Adds {
+		v := int64(1000*(order[i]+1) + rapid.IntRange(1, 999).Draw(t, "v"))
+		if signs == "neg" || (signs == "mixed" && rapid.Bool().Draw(t, "negative")) {
+			v = -v
+		}
+		h.Adds[i].Value = v
+	}
 	m := rapid.IntRange(2, 8).Draw(t, "nreads")
 	for i := 0; i < m; i++ {
 		h.ReadsMs = append(h.ReadsMs, rapid.IntRange(0, 12000).Draw(t, "read"))
